@@ -199,8 +199,9 @@ impl Sim {
                 let known = part >= 1 && (part as usize) <= self.parts.len()
                     && self.parts[part as usize - 1].hash == hash
                     && Some(self.parts[part as usize - 1].cmd) == p["groupid"].as_u64();
+                // timeout: seconds after which the node answers code 200 although the part is still pending (-1: none)
                 json!({"kind":"wait","hash":hash,"part": if known { part } else { 0 },
-                       "timeout": !p["timeout"].is_null()})
+                       "timeout": p["timeout"].as_i64().unwrap_or(-1), "at": self.now})
             }
             "pay" => {
                 let b = p["bolt11"].as_str().unwrap_or("");
@@ -298,7 +299,9 @@ impl Sim {
             Some(c) if c.st == CallSt::Issued => {
                 if c.method == "waitsendpay" {
                     let part = c.abs["part"].as_u64().unwrap_or(0) as usize;
-                    part == 0 || self.parts[part - 1].st != "pending"
+                    let to = c.abs["timeout"].as_i64().unwrap_or(-1);
+                    let at = c.abs["at"].as_u64().unwrap_or(0);
+                    part == 0 || self.parts[part - 1].st != "pending" || (to >= 0 && self.now >= at + to as u64)
                 } else {
                     true
                 }
@@ -398,7 +401,8 @@ impl Sim {
                     match p.st {
                         "complete" => (Ok(self.part_json(part - 1)), json!({"r":"complete"})),
                         "failed" => (Err(RpcErr { code: Some(p.code), message: String::from("part failed"), transport: false }), json!({"r":"code","code":p.code})),
-                        _ => panic!("harness: waitsendpay executed while part pending"),
+                        // the caller asked for a timeout and it has passed: the part is still pending
+                        _ => (Err(RpcErr { code: Some(200), message: String::from("Timed out while waiting"), transport: false }), json!({"r":"code","code":200})),
                     }
                 }
             }
@@ -481,6 +485,9 @@ impl Sim {
                 v.as_object_mut().unwrap().remove("payment_preimage");
                 Ok(v)
             }
+            // the reply is lost at transport level / arrives as an error object without a code
+            "transport" => Err(RpcErr { code: None, message: String::from("connection closed"), transport: true }),
+            "nocode" => Err(RpcErr { code: None, message: String::from("error without code"), transport: false }),
             _ => Err(RpcErr { code: Some(210), message: String::from("Ran out of routes to try"), transport: false }),
         };
         let c = self.calls.get_mut(&cmd).unwrap();
